@@ -584,7 +584,10 @@ class TrustRegion:
                 )
 
         # Evaluate the tangential step.
-        radius = np.sqrt(self.radius**2.0 - normal_step @ normal_step)
+        radius = max(
+            np.sqrt(max(self.radius**2.0 - normal_step @ normal_step, 0.0)),
+            TINY,
+        )
         xl -= normal_step
         xu -= normal_step
         bub = np.maximum(bub - aub @ normal_step, 0.0)
